@@ -7,6 +7,8 @@
 import YtkModel.Decisions2
 import YtkModel.Generated.Tables2
 
+set_option linter.unusedSimpArgs false
+
 namespace Ytk
 
 /-! ## diff -/
@@ -116,14 +118,14 @@ theorem addContext_eq_table {δ : Type} (s : State δ) (name : String) (doc : δ
     addContext s name doc newCtx = addContextT s name doc newCtx := by
   unfold addContext addContextT
   cases hx : AMap.get? s.ctxMap name with
-  | none => simp [addArmOf, addArms, AddStep.run]
+  | none => simp [addArmOf, addArms, List.lookup, AddStep.run]
   | some ex =>
     cases hm : newCtx.mergeFn with
-    | none => simp [addArmOf, addArms, AddStep.run, hm]
+    | none => simp [addArmOf, addArms, List.lookup, AddStep.run, hm]
     | mergeTags =>
-      simp [addArmOf, addArms, AddStep.run, hm]
+      simp [addArmOf, addArms, List.lookup, AddStep.run, hm]
       cases newCtx.doc <;> rfl
-    | mustCreate => simp [addArmOf, addArms, AddStep.run, hm]
+    | mustCreate => simp [addArmOf, addArms, List.lookup, AddStep.run, hm]
 
 /-- what the options do to the context under construction -/
 theorem applyOpt_effects {δ : Type} (ctx : Ctx δ) :
